@@ -38,6 +38,8 @@ type fakePCS struct {
 	caPEM        []byte
 	getter       *gen.Getter
 	serverError  bool
+	failKind     string // "tcb" | "qe" | "pckcrl" | "rootcrl": only that download gets a 503
+	conc         *gen.Concrete
 }
 
 var (
@@ -82,6 +84,12 @@ func startFakePCS(g *gen.Getter, serverError bool) *fakePCS {
 			return
 		}
 		u := "https://" + r.Host + r.URL.RequestURI()
+		if f.failKind != "" && f.conc != nil {
+			if k, _ := ClassifyFetch(f.conc, u); k == f.failKind {
+				http.Error(w, "service unavailable", http.StatusServiceUnavailable)
+				return
+			}
+		}
 		h, body, err := f.getter.Get(u)
 		if err != nil {
 			http.Error(w, "not found", http.StatusNotFound)
@@ -364,8 +372,10 @@ func RunCheckToolCase(cs map[string]any, id int, seed int64, tool, tmp string) R
 	case "onWithoutCollateral":
 		args = append(args, "-check_crl=true", "-get_collateral=false")
 	}
-	if n := str("net"); n == "honest" || n == "serverError" || n == "tampered" {
+	if n := str("net"); n != "off" && n != "unreachable" {
 		pcsrv = startFakePCS(c.Getter, n == "serverError")
+		pcsrv.conc = c
+		pcsrv.failKind = map[string]string{"tcbFails": "tcb", "qeFails": "qe", "pckCrlFails": "pckcrl", "rootCrlFails": "rootcrl"}[n]
 		defer pcsrv.stop()
 		ca := filepath.Join(dir, "webca.pem")
 		os.WriteFile(ca, pcsrv.caPEM, 0o600)
